@@ -600,6 +600,103 @@ def absorbed_rows(nd):
     return rows
 
 
+def eq_rows(nd):
+    """the 'row index == column index' families, for EVERY instance of the grid (a class may add a _getitem fast path keyed on
+    equal indices, principal sub-matrices, full or unit slices): equal stepped slices (steps 2 / 3, offsets, negative starts:
+    three draws), equal contiguous slices of every kind incl. unit slices, and near-equal ones; the batch positions rotate
+    through ints, slices and a tensor index.  Returns (kinds, mode) pairs; the column kind is a placeholder."""
+    fam = [("step", "eq"), ("step", "eq"), ("step", "eq"), ("step", "near"), ("ab", "eq"), ("a", "eq"), ("neg", "eq"),
+           ("stopn", "eq"), ("long", "eq"), ("unit", "eq"), ("ab", "near"), ("b", "eq")]
+    bk = ["full", "int_pos", "ab", "int_neg", "step", "t1", "full", "neg", "int_m1", "a", "full", "list"]
+    rows = []
+    for j, (k, mode) in enumerate(fam):
+        row = [bk[(j + d) % len(bk)] for d in range(nd - 2)] + [k, k]
+        rows.append((tuple(row), mode))
+    return rows
+
+
+METHODS = ("_getitem", "_get_indices", "_diagonal")
+# (class, method) pairs that override LinearOperator's implementation on the tree this check was built for; a pair that
+# is NOT listed here is a NEW override: it is reported in the evidence and the class gets the full (thorough-width) index
+# family in the quick tier as well.  TRANSCRIBED: what coq/C03/Model.v part 6 / 7 transcribes (see design_notes/C03.md 2a).
+BASELINE_OVERRIDES = {
+    "BatchRepeat": {"_get_indices", "_getitem"}, "BlockDiag": {"_diagonal", "_get_indices"},
+    "BlockInterleaved": {"_diagonal", "_get_indices"}, "Block": {"_getitem"},
+    "Cat": {"_diagonal", "_get_indices", "_getitem"}, "Chol": {"_diagonal"},
+    "ConstantMul": {"_diagonal", "_get_indices", "_getitem"}, "Dense": {"_diagonal", "_get_indices", "_getitem"},
+    "Diag": {"_diagonal", "_get_indices"}, "Identity": {"_getitem"},
+    "Interpolated": {"_diagonal", "_get_indices", "_getitem"}, "KeOps": {"_diagonal", "_get_indices", "_getitem"},
+    "Kernel": {"_diagonal", "_get_indices", "_getitem"}, "KroneckerProduct": {"_diagonal", "_get_indices"},
+    "Masked": {"_diagonal", "_get_indices", "_getitem"}, "Matmul": {"_diagonal", "_get_indices", "_getitem"},
+    "Mul": {"_diagonal", "_get_indices"}, "Root": {"_diagonal", "_get_indices", "_getitem"},
+    "SumBatch": {"_diagonal", "_get_indices", "_getitem"}, "Sum": {"_diagonal", "_get_indices", "_getitem"},
+    "Toeplitz": {"_diagonal", "_get_indices"}, "Triangular": {"_diagonal", "_get_indices"},
+    "Zero": {"_diagonal", "_get_indices", "_getitem"},
+}
+TRANSCRIBED = {
+    "BatchRepeat": {"_get_indices"}, "BlockDiag": {"_diagonal", "_get_indices"}, "BlockInterleaved": {"_diagonal", "_get_indices"},
+    "Cat": {"_get_indices"}, "Chol": {"_diagonal"}, "ConstantMul": {"_get_indices", "_getitem"},
+    "Dense": {"_diagonal", "_get_indices", "_getitem"}, "Diag": {"_diagonal", "_get_indices"},
+    "Interpolated": {"_diagonal", "_get_indices"}, "KroneckerProduct": {"_diagonal", "_get_indices"},
+    "Masked": {"_get_indices"}, "Matmul": {"_diagonal", "_get_indices", "_getitem"}, "Mul": {"_get_indices"},
+    "Root": {"_diagonal", "_get_indices", "_getitem"}, "SumBatch": {"_diagonal", "_get_indices", "_getitem"},
+    "Sum": {"_get_indices", "_getitem"}, "Toeplitz": {"_diagonal", "_get_indices"}, "Triangular": {"_get_indices"},
+    "Zero": {"_getitem"}, "LinearOperator(default)": {"_getitem", "_get_indices"},
+}
+
+
+def override_table():
+    """which operator classes of the tree under test override _getitem / _get_indices / _diagonal (introspection)"""
+    import inspect
+    import linear_operator.operators as O
+    from linear_operator.operators._linear_operator import LinearOperator
+    actual = {}
+    for name, cls in inspect.getmembers(O, inspect.isclass):
+        if not issubclass(cls, LinearOperator) or cls is LinearOperator:
+            continue
+        own = {m for m in METHODS if m in cls.__dict__}
+        if own:
+            actual[name.replace("LinearOperator", "")] = own
+    new = sorted("%s.%s" % (c, m) for c, ms in actual.items() for m in ms if m not in BASELINE_OVERRIDES.get(c, set()))
+    gone = sorted("%s.%s" % (c, m) for c, ms in BASELINE_OVERRIDES.items() for m in ms
+                  if c in actual and m not in actual[c])
+    untranscribed = sorted("%s.%s" % (c, m) for c, ms in actual.items() for m in ms if m not in TRANSCRIBED.get(c, set()))
+    return actual, new, gone, untranscribed
+
+
+def classes_with_new_overrides(new):
+    """opbuild class tags affected by a new override: the class itself and its subclasses in the library"""
+    import linear_operator.operators as O
+    tags = set()
+    for short in {x.split(".")[0] for x in new}:
+        cls = getattr(O, short + "LinearOperator", None)
+        if cls is None:
+            from linear_operator.operators import block_linear_operator
+            cls = getattr(block_linear_operator, short + "LinearOperator", None)
+        if cls is None:
+            continue
+        for t, tcls in TAG_CLASS.items():
+            c2 = getattr(O, tcls, None)
+            if c2 is not None and issubclass(c2, cls):
+                tags.add(t)
+    return tags
+
+
+TAG_CLASS = {"Dense": "DenseLinearOperator", "Diag": "DiagLinearOperator", "ConstantDiag": "ConstantDiagLinearOperator",
+             "Identity": "IdentityLinearOperator", "Zero": "ZeroLinearOperator", "Toeplitz": "ToeplitzLinearOperator",
+             "Triangular": "TriangularLinearOperator", "Chol": "CholLinearOperator", "Root": "RootLinearOperator",
+             "LowRankRoot": "LowRankRootLinearOperator", "Kron": "KroneckerProductLinearOperator",
+             "KronTriangular": "KroneckerProductTriangularLinearOperator", "KronDiag": "KroneckerProductDiagLinearOperator",
+             "KronAddedDiag": "KroneckerProductAddedDiagLinearOperator", "SumKron": "SumKroneckerLinearOperator",
+             "AddedDiag": "AddedDiagLinearOperator", "LowRankRootAddedDiag": "LowRankRootAddedDiagLinearOperator",
+             "Sum": "SumLinearOperator", "PsdSum": "PsdSumLinearOperator", "Matmul": "MatmulLinearOperator",
+             "Mul": "MulLinearOperator", "ConstantMul": "ConstantMulLinearOperator", "BlockDiag": "BlockDiagLinearOperator",
+             "BlockInterleaved": "BlockInterleavedLinearOperator", "SumBatch": "SumBatchLinearOperator",
+             "BatchRepeat": "BatchRepeatLinearOperator", "Cat": "CatLinearOperator", "Interpolated": "InterpolatedLinearOperator",
+             "Masked": "MaskedLinearOperator", "Permutation": "PermutationLinearOperator",
+             "TransposePermutation": "TransposePermutationLinearOperator", "Kernel": "KernelLinearOperator"}
+
+
 def reference(op, e, stats):
     """dense reference of an operator: op.to_dense() (rounded: data are small integers; FFT-based densification
     leaves ~1e-16 noise), cross-checked against the independent assembly opbuild.dense(e)"""
@@ -620,8 +717,14 @@ def reference(op, e, stats):
     return TD, dt
 
 
+def tree_classes_plain(e):
+    return {c.split(":")[0] for c in tree_classes(e)}
+
+
 def stage_e2e(ctx, rng):
     insts = instances(ctx)
+    actual, new_over, gone_over, untranscribed = override_table()
+    widen_tags = classes_with_new_overrides(new_over) if new_over else set()
     cases = []
     defs = {}
     stats = {"e2e_evaluations": 0, "e2e_unsupported": 0, "e2e_direct_failures": 0, "e2e_denotation_mismatch_instances": 0,
@@ -648,10 +751,26 @@ def stage_e2e(ctx, rng):
         dname = "D%d" % stats["e2e_instances"]
         defs[dname] = "Definition %s := %s.\n" % (dname, tlit_of(TD))
         dense_of[dname] = TD
-        for ri, row in e2e_rows(ctx, nd, cno):
-            items, bare = ix.instantiate(rng, row, shape, form=ri % 5)
+        rows = [(ri, row, None) for ri, row in e2e_rows(ctx, nd, cno)]
+        if ctx.quick and (tree_classes_plain(e) & widen_tags):
+            # a class of this expression has a NEW override of _getitem / _get_indices / _diagonal: full index family
+            tier = ctx.tier
+            ctx.tier = "thorough"
+            try:
+                rows = [(ri, row, None) for ri, row in e2e_rows(ctx, nd, cno)]
+            finally:
+                ctx.tier = tier
+            stats["e2e_widened_instances"] = stats.get("e2e_widened_instances", 0) + 1
+        base_ri = 100000
+        rows += [(base_ri + j, row, mode) for j, (row, mode) in enumerate(eq_rows(nd))]
+        for ri, row, mode in rows:
+            items, bare = ix.instantiate(rng, row, shape, form=(ri % 5 if mode is None else (ri % 3)), eq_mode=mode)
             idx = ix.to_py(items, bare)
             exp = run_dense(TD, idx)
+            if mode is not None:
+                stats["e2e_eq_family_cases"] = stats.get("e2e_eq_family_cases", 0) + 1
+                if exp[0] != "ok" or exp[1].numel() == 0:
+                    continue                  # the copied slice selects nothing on the other dimension: outside the quantifier
             if exp[0] != "ok":
                 raise RuntimeError("generator produced an index torch rejects: %s on %s" % (ix.show(items, bare), shape))
             cell, info = cell_of(items, shape)
@@ -716,6 +835,10 @@ def stage_e2e(ctx, rng):
     stats["e2e_distinct_cells"] = len(cells_seen)
     stats["e2e_kind_histogram"] = kind_hist
     stats["e2e_classes"] = len(per_cls_count)
+    stats["overrides_new"] = new_over
+    stats["overrides_removed"] = gone_over
+    stats["overrides_not_transcribed"] = untranscribed
+    stats["overrides_widened_tags"] = sorted(widen_tags)
     samples = [{"expr": ob.describe(c[1]), "shape": ob.shape_of(c[1]), "index": ix.show(c[2], c[3]), "debug": c[4],
                 "result_shape": list(c[5][1].shape) if c[5][0] == "ok" else c[5][1]} for c in (cases[len(cases) // 3], cases[-1])]
     return stats, samples, cells_seen
